@@ -51,6 +51,7 @@ type call struct {
 	ended        bool
 	judged       bool
 	faulted      bool // a reset was injected: success is no longer owed
+	redirected   bool // reaches its server through a 302: the client drops the body, no token is owed
 	dials        int
 	conns        []*simnet.Conn
 	fed          int
